@@ -465,6 +465,73 @@ def run_once(case: Dict[str, Any], cancel_at: Optional[int] = None, cancel_mode:
     return obs_out
 
 
+def exec_reentry(ctx, case: Dict[str, Any]) -> None:
+    """The same SSETransport object entered a second time: whatever the first connection left behind, the second
+    entry is judged by what the server does *now* (it must not be taken for established on stale state)."""
+    from chuk_mcp.transports.sse.transport import SSETransport
+    from chuk_mcp.transports.sse.parameters import SSEParameters
+    second = case["second"]
+    state = {"gets": 0}
+
+    async def handler(request: httpx.Request, rec):
+        if request.method == "GET":
+            state["gets"] += 1
+            if state["gets"] == 1 or second == "ok":
+                st = TimedByteStream([(None, sse_event("endpoint", f"/messages/?session_id=g{state['gets']}"))], hold_open=True)
+                state["stream"] = st
+                return httpx.Response(200, headers={"content-type": "text/event-stream"}, stream=st)
+            if second == "404":
+                return httpx.Response(404, content=b"gone")
+            if second == "connect_error":
+                raise httpx.ConnectError("refused", request=request)
+            st = TimedByteStream([], hold_open=True)       # silent: never announces
+            state["stream"] = st
+            return httpx.Response(200, headers={"content-type": "text/event-stream"}, stream=st)
+        state.setdefault("posts", []).append(str(request.url))
+        return httpx.Response(202)
+
+    async def main():
+        outs = []
+        loop = asyncio.get_running_loop()
+        with ScriptedHTTP(handler):
+            tr = SSETransport(SSEParameters(url=BASE, timeout=TIMEOUT))
+            for k in range(2):
+                t0 = loop.time()
+                try:
+                    async with tr:
+                        outs.append(("entered", k, tr._message_url, loop.time() - t0))
+                        await asyncio.sleep(0.2)
+                        state["stream"].release()
+                except BaseException as e:  # noqa
+                    if isinstance(e, (KeyboardInterrupt, SystemExit)):
+                        raise
+                    outs.append(("raised", k, repr(e)[:100], loop.time() - t0))
+                if "stream" in state:
+                    state["stream"].release()
+        return outs
+
+    try:
+        outs, _ = run_virtual(main, max_iterations=300_000)
+    except HangDetected as e:
+        ctx.violation("hang", f"re-entry: {e}", case)
+        return
+    ctx.count("scenarios")
+    ctx.count("reentry_scenarios")
+    first, again = outs[0], outs[1]
+    if first[0] != "entered":
+        ctx.violation("entry_failed_despite_announcement", f"first entry of a fresh transport: {first}", case)
+    if second == "ok":
+        if again[0] != "entered" or not str(again[2]).endswith("session_id=g2"):
+            ctx.violation("stale_endpoint_after_reentry", f"second entry announced session g2; transport uses {again}", case)
+    else:
+        if again[0] == "entered":
+            ctx.violation("entered_without_endpoint", f"second entry of the same transport object was taken for established "
+                          f"although this time the server answered {second!r} (endpoint in use: {again[2]!r})", case)
+        elif again[3] > TIMEOUT + 0.01:
+            ctx.violation("entry_raise_too_late", f"second entry raised after {again[3]}s", case)
+    ctx.record(case, shape=[first[0], again[0]], cls=f"reentry:{second}", sample={"case": case, "outcomes": [first[0], again[0]]})
+
+
 def check_clean(ctx, case, obs, label=""):
     if obs.get("leftover_tasks"):
         ctx.violation("task_leaked", f"{label}tasks still running after the context was left: {obs['leftover_tasks']}", case)
@@ -626,7 +693,14 @@ def exec_cancel_sweep(ctx, case: Dict[str, Any]) -> None:
                    sample={"case": c, "cancelled": bool(obs.get("cancelled")), "leftovers": obs.get("leftover_tasks")})
 
 
+def _reentry_cases():
+    return [{"reentry": True, "second": k} for k in ("ok", "404", "connect_error", "silent")]
+
+
 def run(ctx):
+    for case in _reentry_cases():
+        if ctx.mine():
+            exec_reentry(ctx, case)
     for case in gen_cases(ctx):
         if not ctx.mine():
             continue
@@ -637,6 +711,9 @@ def run(ctx):
 
 
 def replay(ctx, case):
+    if case.get("reentry"):
+        exec_reentry(ctx, case)
+        return
     if "cancel@" in str(case.get("exit", "")):
         k = int(case["exit"].split("@")[1])
         base = dict(case, exit="normal")
